@@ -1,1 +1,165 @@
-/- C17: property theorems (not yet built). -/
+/- C17 — Source text is never lost and reported positions are accurate.
+   Property theorems only (helper lemmas live in Proofs/Loc.lean, Proofs/Tile.lean).
+
+   Text is a `List Char`; an offset "on a character boundary inside the text" is given as a split
+   `text = pre ++ post` with offset `byteLen pre` (UTF-8 bytes). -/
+import JrsVerif.Proofs.Loc
+import JrsVerif.Proofs.Tile
+
+namespace JrsVerif.Loc
+open Spec
+
+/-- C17.0  for any list of requested offsets that are character boundaries (any order, repeats
+    allowed), the walker's answer for each is the reference location: offset, line, column,
+    start and end of the line. -/
+theorem model_eq_spec (pre post : List Char) (offs : List Nat) (hv : Boundaries (pre ++ post) offs)
+    (i : Nat) (hi : offs[i]? = some (byteLen pre)) :
+    (offsetToLocation (pre ++ post) offs)[i]? = some (Spec.locate pre post) := by
+  have hlt : i < offs.length := by
+    rcases Nat.lt_or_ge i offs.length with h | h
+    · exact h
+    · rw [List.getElem?_eq_none h] at hi; cases hi
+  simp [offsetToLocation, hlt, locFn_eq_spec pre post offs hv i hi]
+
+/-- C17.1  line: for every text — ASCII or not, CRLF or not — and every character-boundary offset,
+    the reported line is 1 + the number of newlines before the offset. -/
+theorem line_spec (pre post : List Char) :
+    (offsetToLocation (pre ++ post) [byteLen pre]).map (·.line) = [1 + pre.count '\n'] := by
+  have hv : Boundaries (pre ++ post) [byteLen pre] := by
+    intro o ho; simp at ho; subst ho; exact ⟨pre, post, rfl, by simp⟩
+  have := locFn_eq_spec pre post [byteLen pre] hv 0 (by simp)
+  simp [offsetToLocation, this, Spec.locate, Spec.line]
+
+/-- same, inside any tuple of offsets -/
+theorem line_spec_multi (pre post : List Char) (offs : List Nat) (hv : Boundaries (pre ++ post) offs)
+    (i : Nat) (hi : offs[i]? = some (byteLen pre)) :
+    ((offsetToLocation (pre ++ post) offs)[i]?).map (·.line) = some (1 + pre.count '\n') := by
+  rw [model_eq_spec pre post offs hv i hi]; rfl
+
+/-- the printed start column (`column - 1`, as `print_code_location` writes it) is the number of
+    characters since the line start + 1, for every text -/
+theorem column_chars (pre post : List Char) :
+    (offsetToLocation (pre ++ post) [byteLen pre]).map (fun l => l.column - 1) =
+      [(linePrefix pre).length + 1] := by
+  have hv : Boundaries (pre ++ post) [byteLen pre] := by
+    intro o ho; simp at ho; subst ho; exact ⟨pre, post, rfl, by simp⟩
+  have := locFn_eq_spec pre post [byteLen pre] hv 0 (by simp)
+  simp [offsetToLocation, this, Spec.locate, Spec.column]
+
+theorem byteLen_ascii (cs : List Char) (h : ∀ c ∈ cs, c.toNat < 128) : byteLen cs = cs.length := by
+  induction cs with
+  | nil => rfl
+  | cons c cs ih =>
+    have h1 : c.utf8Size = 1 := by
+      rw [Char.utf8Size_eq_one_iff]
+      have := h c (List.mem_cons_self ..)
+      simp only [Char.toNat, UInt32.le_iff_toNat_le] at this ⊢
+      have e : (127 : UInt32).toNat = 127 := by decide
+      omega
+    simp [byteLen, h1, ih (fun d hd => h d (List.mem_cons_of_mem _ hd))]; omega
+
+/-- C17.2  column: whenever the text between the last newline before the offset and the offset is
+    ASCII — whatever precedes that line: multi-byte characters, comments, CRLF, blank lines — the
+    printed start column is exactly (offset − byte offset of the line start) + 1, and the reported
+    line start is the byte right after the last newline. -/
+theorem column_exact_if_line_prefix_ascii (pre post : List Char)
+    (hascii : ∀ c ∈ linePrefix pre, c.toNat < 128) :
+    (offsetToLocation (pre ++ post) [byteLen pre]).map
+        (fun l => (l.column - 1, l.lineStart + byteLen (linePrefix pre))) =
+      [((byteLen pre - (byteLen pre - byteLen (linePrefix pre))) + 1, byteLen pre)] := by
+  have hv : Boundaries (pre ++ post) [byteLen pre] := by
+    intro o ho; simp at ho; subst ho; exact ⟨pre, post, rfl, by simp⟩
+  have := locFn_eq_spec pre post [byteLen pre] hv 0 (by simp)
+  have hle : byteLen (linePrefix pre) ≤ byteLen pre := by
+    have h := byteLen_append (pre.reverse.dropWhile (fun c => !isNl c)).reverse (linePrefix pre)
+    have e : (pre.reverse.dropWhile (fun c => !isNl c)).reverse ++ linePrefix pre = pre := by
+      simp only [linePrefix, ← List.reverse_append, List.takeWhile_append_dropWhile, List.reverse_reverse]
+    rw [e] at h; omega
+  simp [offsetToLocation, this, Spec.locate, Spec.column, byteLen_ascii _ hascii] at hle ⊢
+  omega
+
+/-- C17.3  asking for several offsets at once gives, for each, the answer of asking for it alone
+    (the sorted-stack bookkeeping neither drops nor mixes up requests; repeats are fine). -/
+theorem multi_offsets_independent (text : List Char) (offs : List Nat) (hv : Boundaries text offs)
+    (i : Nat) (hi : i < offs.length) :
+    (offsetToLocation text offs)[i]? = (offsetToLocation text [offs[i]])[0]? := by
+  obtain ⟨pre, post, rfl, ho⟩ := hv offs[i] (List.getElem_mem hi)
+  simp only [Nat.zero_add] at ho
+  have hv1 : Boundaries (pre ++ post) [offs[i]] := by
+    intro o h; simp at h; subst h; exact ⟨pre, post, rfl, by simp [ho]⟩
+  rw [model_eq_spec pre post offs hv i (by simp [hi, ho]),
+      model_eq_spec pre post [offs[i]] hv1 0 (by simp [ho])]
+
+/-- both ends of a span at once: what `CompactFormat` feeds to `print_code_location` -/
+theorem span_locations (pre₁ post₁ pre₂ post₂ : List Char) (h : pre₁ ++ post₁ = pre₂ ++ post₂) :
+    offsetToLocation (pre₁ ++ post₁) [byteLen pre₁, byteLen pre₂] =
+      [Spec.locate pre₁ post₁, Spec.locate pre₂ post₂] := by
+  have hv : Boundaries (pre₁ ++ post₁) [byteLen pre₁, byteLen pre₂] := by
+    intro o ho; simp at ho
+    rcases ho with rfl | rfl
+    · exact ⟨pre₁, post₁, rfl, by simp⟩
+    · exact ⟨pre₂, post₂, h, by simp⟩
+  have h1 := locFn_eq_spec pre₁ post₁ _ hv 0 (by simp)
+  have h2 := locFn_eq_spec pre₂ post₂ [byteLen pre₁, byteLen pre₂] (h ▸ hv) 1 (by simp)
+  rw [← h] at h2
+  simp [offsetToLocation, List.range, List.range.loop, h1, h2]
+
+/-- C17.4  whatever branch `print_code_location` takes, the line and column it prints first are
+    the reference line and column of the span's start -/
+theorem print_start (pre₁ post₁ pre₂ post₂ : List Char) :
+    (printCodeLocation (Spec.locate pre₁ post₁) (Spec.locate pre₂ post₂)).startLine = Spec.line pre₁ ∧
+    (printCodeLocation (Spec.locate pre₁ post₁) (Spec.locate pre₂ post₂)).startCol = Spec.column pre₁ := by
+  unfold printCodeLocation
+  split
+  · split
+    · rename_i h; simp [Spec.locate] at h ⊢; simp [Printed.startLine, Printed.startCol, ← h]
+    · simp [Printed.startLine, Printed.startCol, Spec.locate]
+  · simp [Printed.startLine, Printed.startCol, Spec.locate]
+
+/-- span on one line: `line:startcol-endcol`, the end column being that of the span's exclusive
+    end plus one (the convention of the existing golden files) -/
+theorem print_single_line (pre₁ post₁ pre₂ post₂ : List Char)
+    (hl : Spec.line pre₁ = Spec.line pre₂) (hc : Spec.column pre₁ ≠ Spec.column pre₂) :
+    printCodeLocation (Spec.locate pre₁ post₁) (Spec.locate pre₂ post₂) =
+      .sameLine (Spec.line pre₁) (Spec.column pre₁) (Spec.column pre₂ + 1) := by
+  simp [printCodeLocation, Spec.locate, hl, hc]
+
+/-- span over several lines: start line:start column - END line:end column (the start's own line
+    and column for the start, the end's own for the end) -/
+theorem print_multi_line (pre₁ post₁ pre₂ post₂ : List Char) (hl : Spec.line pre₁ ≠ Spec.line pre₂) :
+    printCodeLocation (Spec.locate pre₁ post₁) (Spec.locate pre₂ post₂) =
+      .multi (Spec.line pre₁) (Spec.column pre₁) (Spec.line pre₂) (Spec.column pre₂ + 1) := by
+  simp [printCodeLocation, Spec.locate, hl]
+
+/-- non-vacuity: the text `"éé" +⏎ error` with the offset of `error` (byte 10, after two 2-byte
+    characters): hypotheses of C17.2 hold, reference says line 2, column 2 -/
+example :
+    let pre := "\"éé\" +\n ".toList
+    byteLen pre = 10 ∧ (∀ c ∈ linePrefix pre, c.toNat < 128) ∧ Spec.line pre = 2 ∧ Spec.column pre = 2 := by
+  decide
+
+/-- non-vacuity of `Boundaries` with repeats, disorder and multi-byte characters -/
+example : Boundaries "é\nx".toList [3, 0, 3, 2, 4] := by
+  intro o ho
+  simp at ho
+  rcases ho with rfl | rfl | rfl | rfl | rfl
+  · exact ⟨"é\n".toList, "x".toList, by decide, by decide⟩
+  · exact ⟨[], "é\nx".toList, by decide, by decide⟩
+  · exact ⟨"é\n".toList, "x".toList, by decide, by decide⟩
+  · exact ⟨"é".toList, "\nx".toList, by decide, by decide⟩
+  · exact ⟨"é\nx".toList, [], by decide, by decide⟩
+
+end JrsVerif.Loc
+
+namespace JrsVerif.Tile
+
+/-- C17.5  token ranges that tile `[0, len)` (each starts where the previous ended, none reversed,
+    last ends at `len`) lose nothing: the token texts concatenated are the input, for every input.
+    (`tilesB` is the statement the check evaluates on the real lexer's ranges.) -/
+theorem tiling_lossless {α : Type} (xs : List α) (rs : List (Nat × Nat))
+    (h : tilesB 0 xs.length rs = true) : (rs.map (slice xs)).flatten = xs := by
+  simpa using tiles_concat_from xs rs 0 h
+
+example : tilesB 0 5 [(0, 2), (2, 2), (2, 5)] = true ∧ tilesB 0 5 [(0, 2), (3, 5)] = false := by decide
+
+end JrsVerif.Tile
